@@ -149,6 +149,16 @@ crypt_sha1crypt_rn (const char *phrase, size_t phr_size,
 
   sl = (size_t)(sp - setting);
 
+  /* Make sure "$sha1$<iterations>$<salt>$<digest>" and its terminator
+     fit into the output buffer; everything below relies on that.  */
+  dl = snprintf (NULL, 0, "%lu", iterations);
+  if (dl < 0 ||
+      strlen (magic) + (size_t)dl + 1 + sl + 1 + SHA1_OUTPUT_SIZE + 1 > out_size)
+    {
+      errno = ERANGE;
+      return;
+    }
+
   /*
    * Now get to work...
    * Prime the pump with <salt><magic><iterations>
